@@ -28,6 +28,34 @@ pub fn run_c01(r: &mut Report) {
     let o1 = key(1);
     let o2 = key(3);
     let o3 = key(4);
+    // the owner gate with stray entries in the signature list: one owner signed, two are demanded - whatever else the list carries
+    // (copies of the genuine signature under re-spelled, altered or the other owner's id, junk, repeats, in any position), the
+    // layout is rejected; with only the signing owner demanded it is accepted
+    {
+        let (lay, d) = simple(&[&o1], 30);
+        let g = serde_json::to_value(&lay.signatures[0]).unwrap();
+        let id = g["keyid"].as_str().unwrap().to_string();
+        let other = serde_json::to_value(o2.key_id()).unwrap().as_str().unwrap().to_string();
+        let flip = |s: &str, i: usize| -> String { s.chars().enumerate().map(|(j, c)| if j == i { if c == '0' { '1' } else { '0' } } else { c }).collect() };
+        let mixed: String = id.chars().enumerate().map(|(j, c)| if j % 2 == 0 { c.to_ascii_uppercase() } else { c }).collect();
+        let labels: Vec<(&str, String)> = vec![("same id", id.clone()), ("upper case", id.to_ascii_uppercase()), ("mixed case", mixed), ("last digit changed", flip(&id, 63)),
+            ("first digit changed", flip(&id, 0)), ("other owner's id", other.clone()), ("other owner's id in upper case", other.to_ascii_uppercase())];
+        let mut bad: Vec<String> = vec![]; let mut n = 0;
+        for (what, label) in &labels { for junk in [false, true] { for pos in ["first", "last", "both"] {
+            let sigv = if junk { json!("00".repeat(64)) } else { g["sig"].clone() };
+            let stray: in_toto::crypto::Signature = match serde_json::from_value(json!({"keyid": label, "sig": sigv})) { Ok(s) => s, Err(_) => continue };
+            let mut m = lay.clone();
+            if pos != "last" { m.signatures.insert(0, stray.clone()); }
+            if pos != "first" { m.signatures.push(stray.clone()); }
+            n += 2;
+            let two = no_panic(|| in_toto_verify(&m, owner_keys(&[&o1, &o2]), d.path().to_str().unwrap(), None).is_ok());
+            let one = no_panic(|| in_toto_verify(&m, owner_keys(&[&o1]), d.path().to_str().unwrap(), None).is_ok());
+            if two != Ok(false) && bad.len() < 6 { bad.push(format!("stray entry labelled {} ({}, {}), owners demanded o1+o2: {:?}", what, if junk { "junk" } else { "copy of the genuine signature" }, pos, two)); }
+            // (a junk entry under the signer's own id is a second signature "by" that key: which of the two counts is not promised)
+            if !(junk && *what == "same id") && one != Ok(true) && bad.len() < 6 { bad.push(format!("stray entry labelled {} ({}, {}), owner demanded o1: {:?}", what, if junk { "junk" } else { "copy of the genuine signature" }, pos, one)); }
+        } } }
+        r.case("owner-gate-with-stray-signature-entries", json!({"inputs": n}), "rejected when an owner did not sign, accepted when the demanded owner signed", format!("{:?}", bad), bad.is_empty());
+    }
     let cases: Vec<(&str, Vec<&PrivateKey>, HashMap<KeyId, PublicKey>, bool)> = vec![
         ("exact-key-set", vec![&o1], owner_keys(&[&o1]), true),
         ("two-owners-both-signed", vec![&o1, &o2], owner_keys(&[&o1, &o2]), true),
@@ -469,6 +497,26 @@ pub fn run_c04(r: &mut Report) {
             } }
         } }
         r.case("every-arrangement-of-repeated-signatures", json!({"inputs": n}), "Ok exactly when distinct authorised signers >= threshold >= 1", format!("{:?}", bad), bad.is_empty());
+        // the same with one key of each type (RSA-PSS and ECDSA authorised, Ed25519 not), re-signing for every occurrence (the
+        // randomised schemes give a different valid signature each time)
+        let rsa = PrivateKey::from_pkcs8(&std::fs::read("/repo/tests/rsa/rsa-2048.pk8.der").unwrap(), in_toto::crypto::SignatureScheme::RsaSsaPssSha256).unwrap();
+        let ec = PrivateKey::from_pkcs8(&std::fs::read("/repo/tests/ecdsa/ec.pk8.der").unwrap(), in_toto::crypto::SignatureScheme::EcdsaP256Sha256).unwrap();
+        let signers: [&PrivateKey; 3] = [&rsa, &ec, &k3];
+        let mut bad2: Vec<String> = vec![]; let mut n2 = 0;
+        for len in 0..=4usize { for code in 0..3usize.pow(len as u32) {
+            let mut c = code; let mut idx = vec![];
+            for _ in 0..len { idx.push(c % 3); c /= 3; }
+            let mut m = sign(&[]);
+            m.signatures = idx.iter().map(|i| { let one = sign(&[signers[*i]]); one.signatures[0].clone() }).collect();
+            let distinct = [0usize, 1].iter().filter(|a| idx.contains(a)).count() as u32;
+            for t in 1u32..=3 { for keys in [pubs(&[&rsa, &ec]), pubs(&[&ec, &rsa])] {
+                n2 += 1;
+                let res = no_panic(|| m.verify(t, keys.iter()).is_ok());
+                let expect = distinct >= t;
+                if res != Ok(expect) && bad2.len() < 6 { bad2.push(format!("signers {:?} (0 rsa, 1 ecdsa authorised; 2 ed25519 not) threshold {}: {:?}, expected {}", idx, t, res, expect)); }
+            } }
+        } }
+        r.case("every-arrangement-of-repeated-signatures-mixed-key-types", json!({"inputs": n2}), "Ok exactly when distinct authorised signers >= threshold >= 1", format!("{:?}", bad2), bad2.is_empty());
     }
     // entries labelled with a near-variant of an authorised key's id (other case, blanks, one digit changed) are entries of an
     // unknown key: they neither add to the count nor displace the genuine entry, in either order
@@ -745,6 +793,41 @@ pub fn agreement_matrix(r: &mut Report, repetitions: usize, tag: &str) {
             let res = no_panic(|| in_toto_verify(&lay, owner_keys(&[&owner]), d.path().to_str().unwrap(), None).is_ok());
             if res != Ok(!dissent) && bad.len() < 6 { bad.push(format!("links {} rank {} threshold {} return value {:?} output {:?} dissent {}: {:?}", n, pos, threshold, rv, out, dissent, res)); }
         } } } } }
+        // artifacts recorded under several digest algorithms: links agree only when the whole digest map of every path agrees
+        {
+            use in_toto::crypto::{HashAlgorithm, HashValue};
+            let td = |d256: Option<u8>, d512: Option<u8>| -> in_toto::models::TargetDescription {
+                let mut t = in_toto::models::TargetDescription::new();
+                if let Some(b) = d256 { t.insert(HashAlgorithm::Sha256, HashValue::new(vec![b; 32])); }
+                if let Some(b) = d512 { t.insert(HashAlgorithm::Sha512, HashValue::new(vec![b; 64])); }
+                t };
+            let mk = |m: in_toto::models::TargetDescription, p: in_toto::models::TargetDescription| in_toto::models::LinkMetadataBuilder::new().name("a".into())
+                .materials([(in_toto::models::VirtualTargetPath::new("m".into()).unwrap(), m)].into_iter().collect())
+                .products([(in_toto::models::VirtualTargetPath::new("p".into()).unwrap(), p)].into_iter().collect()).build().unwrap();
+            let base = (td(Some(1), Some(1)), td(Some(2), Some(2)));
+            let dissents: Vec<(&str, in_toto::models::TargetDescription, in_toto::models::TargetDescription, bool)> = vec![
+                ("none", base.0.clone(), base.1.clone(), false),
+                ("product-sha256-differs", base.0.clone(), td(Some(9), Some(2)), true),
+                ("product-sha512-differs", base.0.clone(), td(Some(2), Some(9)), true),
+                ("material-sha256-differs", td(Some(9), Some(1)), base.1.clone(), true),
+                ("product-sha256-missing", base.0.clone(), td(None, Some(2)), true),
+                ("product-sha512-missing", base.0.clone(), td(Some(2), None), true),
+                ("material-sha512-missing", td(Some(1), None), base.1.clone(), true),
+                ("product-no-digest-at-all", base.0.clone(), td(None, None), true),
+            ];
+            for (kind, dm, dp, dissent) in &dissents { for n in 2..=3usize { for pos in 0..n {
+                cells += 1;
+                let d = tmpdir();
+                let ks: Vec<&in_toto::crypto::PrivateKey> = pool.iter().take(n).collect();
+                for (i, k) in ks.iter().enumerate() {
+                    let l = if i == pos { mk(dm.clone(), dp.clone()) } else { mk(base.0.clone(), base.1.clone()) };
+                    write_link(d.path(), "a", k.key_id(), &signed_link(&l, &[k]));
+                }
+                let lay = signed_layout(&layout(vec![step("a", n as u32, &ks, allow_all(), allow_all())], vec![], &ks, 30), &[&owner]);
+                let res = no_panic(|| in_toto_verify(&lay, owner_keys(&[&owner]), d.path().to_str().unwrap(), None).is_ok());
+                if res != Ok(!*dissent) && bad.len() < 6 { bad.push(format!("two-algorithm artifacts, links {} rank {} dissent {}: {:?}", n, pos, kind, res)); }
+            } } }
+        }
         r.case("agreement-whatever-the-command-reported", json!({"cells": cells}), "Err exactly when the link dissents", format!("{:?}", bad), bad.is_empty());
     }
 }
